@@ -32,15 +32,13 @@ static std::vector<std::string> fields(const std::string& s)
     if (s == ".") return {};
     return split_on(s, ',');
 }
-// LeakSanitizer right after a case whose line ends in the word "lsan" (about 5 ms each, so the plug-ins ask for it on
-// a sample): a leak is then an observation of THAT case, not an exit status nobody reads.  Leaks of payload objects
-// are caught on every case by the constructor/destructor counters.
-static bool want_lsan = false;
-static std::string leak_suffix()
-{
-    if (!want_lsan) return "";
-    return __lsan_do_recoverable_leak_check() ? ";LEAK" : "";
-}
+// Leaks: the bytes the allocator has handed out are compared before and after every case (cheap); only when they grew
+// is LeakSanitizer asked (about 5 ms), and only if it confirms is ";LEAK" appended — so a leak is an observation of the
+// case that caused it, not an exit status nobody reads, and one-time library allocations raise no alarm.
+// (gcc ships no sanitizer/allocator_interface.h; the two functions are part of libasan)
+extern "C" std::size_t __sanitizer_get_current_allocated_bytes(void);
+extern "C" std::size_t __sanitizer_get_allocated_size(const volatile void* p);
+static std::size_t heap_now() { return __sanitizer_get_current_allocated_bytes(); }
 
 // ===================================================================== quaint_ptr
 namespace q
@@ -132,13 +130,17 @@ static QP make(int t)
     }
 }
 
-static std::string run(int n, const std::string& opsw)
+static void cleanup()
 {
-    objs.clear();
+    std::vector<Rec>().swap(objs);
     by_addr.clear();
     std::memset(ctor_n, 0, sizeof ctor_n);
     std::memset(dtor_n, 0, sizeof dtor_n);
     dtor_unknown = 0;
+}
+static std::string run(int n, const std::string& opsw)
+{
+    cleanup();
     std::string out;
     {
         std::vector<std::optional<QP>> pool(n);
@@ -188,7 +190,7 @@ static std::string run(int n, const std::string& opsw)
         vec.shrink_to_fit();
         out += "fin|" + state_obs(pool, vec);
     }
-    return out + leak_suffix();
+    return out;
 }
 } // namespace q
 
@@ -270,7 +272,7 @@ static std::string run(int n, const std::string& opsw)
         for (auto& s : sl) s = std::make_unique<O>(); // every optional of the pool is destroyed (replaced by a fresh empty one)
         out += "fin|" + state_obs<T>(sl);
     }
-    return out + leak_suffix();
+    return out;
 }
 } // namespace o
 
@@ -302,16 +304,27 @@ static std::string run(const std::string& opsw)
 }
 } // namespace e
 
-static std::string run_case(const std::vector<std::string>& w0)
+static std::string run_inner(const std::vector<std::string>& w0)
 {
     std::vector<std::string> w = w0;
-    want_lsan = false;
-    if (!w.empty() && w.back() == "lsan") { want_lsan = true; w.pop_back(); }
+    if (!w.empty() && w.back() == "lsan") w.pop_back(); // tolerated, no longer needed
     // every observation line starts with a one-letter kind word and a blank
     if (w.size() == 3 && w[0] == "q") return "Q " + q::run(std::stoi(w[1]), w[2]);
     if (w.size() == 4 && w[0] == "o" && w[1] == "s") return "O " + o::run<std::string>(std::stoi(w[2]), w[3]);
     if (w.size() == 4 && w[0] == "o" && w[1] == "c") return "O " + o::run<o::Cnt>(std::stoi(w[2]), w[3]);
     if (w.size() == 2 && w[0] == "e") return "E " + e::run(w[1]);
     return "BADCASE";
+}
+static std::string run_case(const std::vector<std::string>& w)
+{
+    q::cleanup();
+    const bool measured = !w.empty() && (w[0] == "q" || w[0] == "o"); // setenv keeps memory by design
+    const std::size_t before = heap_now();
+    std::string out = run_inner(w);
+    q::cleanup();
+    const std::size_t after = heap_now();
+    const std::size_t own = out.capacity() > 15 ? __sanitizer_get_allocated_size(out.data()) : 0;
+    if (measured && after > before + own && __lsan_do_recoverable_leak_check()) out += ";LEAK";
+    return out;
 }
 int main(int argc, char** argv) { return vh::driver_main(argc, argv, run_case); }
